@@ -59,6 +59,9 @@ pub fn emergency(reason: &str) -> ! {
         },
         None => {
             println!("INCONCLUSIVE: process-fatal failure ({reason}) outside any case");
+            if std::env::var("VF_DEBUG").is_ok() {
+                eprintln!("thread {:?}\n{}", std::thread::current().name(), std::backtrace::Backtrace::force_capture());
+            }
             unsafe { libc::_exit(2) };
         },
     }
